@@ -45,6 +45,9 @@ type c01Data struct {
 	static map[string]string // local feature address + function -> canonical data set in the prefix
 	bound  map[string]bool   // peer|client|server -> bound
 	subs   map[string]bool   // per-peer sequential subscription registry
+	// the function of servers[0] that holds a write-protected element ("" if none)
+	protFn   model.FunctionType
+	protInfo FnInfo
 }
 
 //go:norace
@@ -72,13 +75,32 @@ func init() {
 				types = append(types, pool[i])
 				pool = append(pool[:i:i], pool[i+1:]...)
 			}
+			// sometimes the first server holds a write-protected element: an authorised write that
+			// addresses it is rejected by the data layer (one error result, whatever ackRequest says)
+			var protInfo FnInfo
+			if w.T.Bool(1, 3, "protected-fixture") {
+				protInfo = fnByName[c04Functions[w.T.Choose(len(c04Functions), "protected-function")]]
+				pt := featureTypeOf(protInfo.Fn)
+				for i, t := range types {
+					if t == pt && i != 0 {
+						types[i] = types[0]
+					}
+				}
+				types[0] = pt
+			}
 			le := L.NewLocalEntity([]uint{1}, model.EntityTypeTypeCEM, 4*time.Second)
 			var servers, clients []*LFeat
-			for _, t := range types {
+			for ti, t := range types {
 				var fns []PFunc
+				if ti == 0 && protInfo.Fn != "" {
+					fns = append(fns, PFunc{protInfo.Fn, true, true})
+				}
 				for _, fi := range fnTable[t] {
 					if t == model.FeatureTypeTypeDeviceDiagnosis && fi.Fn == model.FunctionTypeDeviceDiagnosisHeartbeatData {
 						continue // would start the heartbeat; C16 owns that
+					}
+					if ti == 0 && fi.Fn == protInfo.Fn {
+						continue
 					}
 					if w.T.Bool(3, 4, "announce-fn") {
 						fns = append(fns, PFunc{fi.Fn, true, w.T.Bool(1, 2, "writable")})
@@ -92,8 +114,18 @@ func init() {
 			}
 			L.AddEntity(le)
 			// static data on the announced functions
+			if protInfo.Fn != "" {
+				items := []reflect.Value{w.GenItem(protInfo.ItemType, []uint{0}, 1, 1, util.Ptr(false)), w.GenItem(protInfo.ItemType, []uint{1}, 1, 1, util.Ptr(true))}
+				data := GenList(protInfo, items)
+				servers[0].F.SetData(protInfo.Fn, data)
+				d.static[AddrStr(servers[0].Address())+"|"+string(protInfo.Fn)] = CanonAny(data)
+				d.protFn, d.protInfo = protInfo.Fn, protInfo
+			}
 			for _, sf := range servers {
 				for _, fn := range sf.Funcs {
+					if sf == servers[0] && fn.Fn == protInfo.Fn {
+						continue
+					}
 					if w.T.Bool(2, 3, "set-data") {
 						info := fnByNameGeneric(fn.Fn)
 						data := w.GenData(info)
@@ -192,11 +224,27 @@ func (d *c01Data) genRequest(w *World, p *Peer, servers, clients []*LFeat) *c01R
 	if sf.Type == model.FeatureTypeTypeDeviceDiagnosis && fi.Fn == model.FunctionTypeDeviceDiagnosisHeartbeatData {
 		fi = fns[0]
 	}
+	kind := w.T.Choose(12, "kind")
+	if d.protFn != "" && ti == 0 && w.T.Bool(1, 2, "protected-function") {
+		fi = d.protInfo
+	}
 	r.fn = fi.Fn
 	cmd := model.CmdType{}
 	empty := reflect.New(fi.DataType).Interface()
-	kind := w.T.Choose(12, "kind")
 	switch {
+	case kind >= 3 && kind < 7 && ti == 0 && fi.Fn == d.protFn && d.protFn != "":
+		// every write to the function holding the protected element addresses that element
+		// (partial write, identified by the item's identifier): refused, by the binding check or
+		// by the data layer - an error result either way and the data stays as it is
+		r.cl = model.CmdClassifierTypeWrite
+		r.src, r.dst = pClient.Address(), sf.Address()
+		item := w.GenItem(fi.ItemType, []uint{0}, 1, 1, nil)
+		cmd.SetDataForFunction(fi.Fn, GenList(fi, []reflect.Value{item}))
+		cmd.Function = util.Ptr(fi.Fn)
+		cmd.Filter = append(cmd.Filter, *MakeFilter(fi, "partial", nil, nil))
+		bound := d.bound[p.Name+"|"+AddrStr(pClient.Address())+"|"+AddrStr(sf.Address())]
+		r.expect, r.desc = "error", fmt.Sprintf("write-to-protected-element(bound=%v)", bound)
+		w.Probe(fmt.Sprintf("c01-protected-write-bound-%v", bound))
 	case kind < 3: // read
 		r.cl = model.CmdClassifierTypeRead
 		cmd.SetDataForFunction(fi.Fn, empty)
